@@ -1,12 +1,43 @@
-"""C14 - primary and unique keys are never silently duplicated (CONC part; SEQ part in c14a when built)."""
-from . import c14b, c20
+"""C14 - primary and unique keys are never silently duplicated (SEQ histories + concurrent creators)."""
+import time
+
+from .. import engines, harness
+from ..pool import Pool
+from . import c14b, seqcommon
+
+RULE = ('SEQ part: the C09 histories with a key-heavy mix over explicit / auto / composite primary keys, unique, '
+        'optional-unique (None never conflicts) and composite unique keys, key values moved between objects, delete '
+        'then re-create; a change that duplicates a key held by another row of the model must be refused at the '
+        'operation or by the (injected) flush, a conflict at flush leaves the dump equal to the previous committed '
+        'state, and no dump ever holds equal key values. ' + c14b.RULE_B)
 
 COMPONENTS = {
-    'real': ['pony.orm.core key indexes (update_simple_index, db_update_simple_index), _save_created_/_save_updated_',
-             'SQLite UNIQUE / PRIMARY KEY constraints through sqlite3'],
-    'stub': ['seeded scheduler', 'DB-API proxy', 'SimLock'],
+    'real': ['pony.orm.core key indexes (update_simple_index, db_update_simple_index, composite indexes), '
+             '_save_created_/_save_updated_', 'SQLite UNIQUE / PRIMARY KEY constraints through sqlite3'],
+    'stub': ['seeded scheduler (CONC part)', 'DB-API proxy', 'SimLock', 'reference model (SEQ part)'],
 }
 
 
 def main(tier, seed):
-    return c20.main(tier, seed, prop='C14', mode='c14', rule=c14b.RULE_B, components=COMPONENTS, gen=c14b.gen_case)
+    col = harness.Collector('C14', 'exploration', tier, seed, RULE)
+    deadline = time.time() + harness.budget_s(tier)
+
+    def cases():
+        i = 0
+        while True:
+            yield seqcommon.gen_case(seed, i, tier, focus='keys', tag='c14')
+            c = c14b.gen_case(seed, i, tier, with_faults=(i % 4 == 3))
+            c['_conc'] = True
+            yield c
+            i += 1
+
+    with Pool() as pool:
+        for case, res in pool.imap_unordered(harness.timed_cases(cases(), deadline)):
+            if case.get('_conc') and res.get('violations'):
+                case = dict(case)
+                case['schedule'] = res.get('schedule', [])
+                case.pop('p_switch', None)
+            col.add(case, res)
+        rc = harness.finish(col, pool, lambda case: engines.get(case['engine']), components=COMPONENTS,
+                            assumptions=['SQLite only', 'SEQ part: the model knows the whole database'])
+    return rc
